@@ -207,7 +207,7 @@ func (p *Program) groundObligations() []*Obligation {
 				wit = "reference file does not match its recorded digest"
 			}
 		}
-		obls = append(obls, groundObl(lang+"/canonical", []string{"C08", "C17"}, wit == "", "wordlist."+lang+" equals ref/wordlists/"+refFileName(lang)+" byte for byte", wit))
+		obls = append(obls, groundObl(lang+"/canonical", []string{"C01", "C08", "C17"}, wit == "", "wordlist."+lang+" equals ref/wordlists/"+refFileName(lang)+" byte for byte", wit))
 	}
 	// every exported list has a language constant of the same name and vice versa
 	p.listFacts = map[string]bool{"len": allLen, "distinct": allDistinct && allLen, "nows": allNows && allLen, "stable": allStable && allLen}
